@@ -49,8 +49,32 @@ INSTR = "instruction::Instruction"
 # emitter side (HIR of impl Compiler)
 # ---------------------------------------------------------------------------------------------------
 
+BC_PARAM_TY = "&mut std::vec::Vec<u8>"
+
+
+def bytecode_param_helpers(F):
+    """functions of the compiler module outside `impl Compiler` that are handed a byte vector to write to
+    (`fn write_operands(self, bytecode: &mut Vec<u8>)`): {short path: (fn, index of that parameter among the call
+    arguments incl. the receiver, hir id of the parameter)}. Whether the vector handed over is program.bytecode is checked
+    at every call."""
+    cached = getattr(F, "_bc_param_helpers", None)
+    if cached is not None:
+        return cached
+    out = {}
+    for f in F.fns:
+        if not f.hir or f.is_closure or not f.path.startswith("compiler::") or f.short.startswith("compiler::Compiler::"):
+            continue
+        ps = f.hir.get("params", [])
+        idx = [i for i, p_ in enumerate(ps) if (p_.get("ty") or "").replace(" ", "") == BC_PARAM_TY.replace(" ", "") and p_.get("k") == "bind"]
+        if len(idx) == 1:
+            out[f.short] = (f, idx[0], ps[idx[0]]["id"])
+    F._bc_param_helpers = out
+    return out
+
+
 def compiler_fns(F):
-    return [f for f in F.fns if f.hir and f.short.startswith("compiler::Compiler::") and not f.is_closure]
+    return [f for f in F.fns if f.hir and f.short.startswith("compiler::Compiler::") and not f.is_closure] + \
+        [v[0] for v in bytecode_param_helpers(F).values()]
 
 
 def instr_ctor(e):
@@ -180,6 +204,8 @@ class EmitScan:
     def __init__(self, F, summaries):
         global _FACTS
         _FACTS = F
+        self.bc_helpers = bytecode_param_helpers(F)
+        self.bc_params = set(v[2] for v in self.bc_helpers.values())
         self.F = F
         self.summaries = summaries   # short fn path -> {'lead': [types], 'emits': bool}
         self.emissions = []
@@ -188,7 +214,10 @@ class EmitScan:
 
     def is_bytecode(self, e):
         ch = hu.field_chain(e)
-        return ch is not None and ch[1][-2:] == ["program", "bytecode"]
+        if ch is not None and ch[1][-2:] == ["program", "bytecode"]:
+            return True
+        # inside a helper that is handed the vector: its parameter (call sites are checked to pass program.bytecode)
+        return ch is not None and not ch[1] and ch[0] is not None and ch[0] in self.bc_params
 
     def is_data(self, e):
         ch = hu.field_chain(e)
@@ -216,6 +245,12 @@ class EmitScan:
             return ("foreign_write", names[0])
         for n in names:
             if n in self.summaries:
+                if n in self.bc_helpers:
+                    # only when the vector handed over is the bytecode
+                    a = ([e["recv"]] if e["k"] == "mcall" else []) + list(e["args"])
+                    k_ = self.bc_helpers[n][1]
+                    if not (k_ < len(a) and self.is_bytecode(a[k_])):
+                        return None
                 return ("helper", n)
         return None
 
@@ -410,6 +445,20 @@ class EmitScan:
 
 
 def emitter_tables(F):
+    cached = getattr(F, "_emitter_tables", None)
+    if cached is not None:
+        return cached
+    F._emitter_tables = _emitter_tables(F)
+    return F._emitter_tables
+
+
+def opcode_param_values(F, fn_short, idx):
+    """the opcodes the call sites pass for parameter #idx of a compiler function (None entries: unresolved)"""
+    emitter_tables(F)
+    return F._emit_param_values(fn_short, idx)
+
+
+def _emitter_tables(F):
     fns = compiler_fns(F)
     if not fns:
         raise AnchorMissing("impl compiler::Compiler")
@@ -461,6 +510,7 @@ def emitter_tables(F):
             else:
                 out.append(None)
         return out
+    F._emit_param_values = param_values
     emissions = []
     for em in scan.emissions:
         if isinstance(em.var, tuple) and em.var[0] == "multi":
@@ -1173,7 +1223,12 @@ def jump_helpers(F):
                 lid = hir_local_id(hu.strip_casts(opn["args"][0]))
                 if isinstance(v, str) and v in JUMPS and lid in params and not hu.let_inits(g).get(lid):
                     emit.setdefault(g.short, []).append({"variant": v, "param": params.index(lid), "node": opn, "fn": g})
-        if len(writes) == 1 and not patches and not other:
+        instrs = [x for kind, x in ordered if kind == "instr"]
+        lead_instr = None
+        if len(writes) == 1 and len(instrs) == 1 and other == 1 and ordered and ordered[0][0] == "instr":
+            # `push_instruction(<opcode>); let i = len(); write(placeholder); i`: emits the jump and reserves its operand
+            lead_instr = instrs[0]
+        if len(writes) == 1 and not patches and (not other or lead_instr is not None):
             w = writes[0]
             val = hu.strip_casts(w["args"][0])
             pidx = params.index(hir_local_id(val)) if hir_local_id(val) in params else None
@@ -1182,9 +1237,21 @@ def jump_helpers(F):
             ll = _len_locals(g)
             rets = _returned_exprs(g)
             ids = [hir_local_id(hu.strip_casts(r_)) for r_ in rets]
-            if rets and all(i is not None and ll.get(i) is not None and ll[i] <= w["ln"] for i in ids) and len(set(ids)) == 1:
+            if rets and all(i is not None and ll.get(i) is not None and ll[i] <= w["ln"] for i in ids) and len(set(ids)) == 1 \
+                    and (lead_instr is None or lead_instr["ln"] <= ll[ids[0]]):
+                ins = None
+                if lead_instr is not None:
+                    a0 = lead_instr["args"][0]
+                    lid0 = hir_local_id(hir_strip(a0))
+                    if lid0 in params and not hu.let_inits(g).get(lid0):
+                        ins = {"param": params.index(lid0)}
+                    else:
+                        v0 = resolved_ctor(g, a0)
+                        if not isinstance(v0, str):
+                            continue
+                        ins = {"variant": v0}
                 reserve[g.short] = {"param": pidx, "value": None if pidx is not None else val,
-                                    "ty": w["f"]["path"].get("args", ["?"])[0], "fn": g}
+                                    "ty": w["f"]["path"].get("args", ["?"])[0], "fn": g, "instr": ins, "node": w}
         elif len(patches) == 1 and not writes and not other:
             pw = patches[0]
             idx, val_ok, ty = raw_patch_parts(F, scan, g, pw)
@@ -1231,6 +1298,8 @@ def jump_fn(F, f, helpers=None):
     helpers = helpers or {"reserve": {}, "patch": {}, "emit": {}}
     reserve, patchers, emitters = helpers["reserve"], helpers["patch"], helpers.get("emit", {})
     deferred_operands = [h["node"] for h in emitters.get(f.short, [])]
+    if f.short in reserve and reserve[f.short].get("instr") is not None:
+        deferred_operands.append(reserve[f.short]["node"])      # its call sites carry the opcode and the placeholder
 
     def fname(node):
         lab = labels.get(id(node))
@@ -1250,7 +1319,14 @@ def jump_fn(F, f, helpers=None):
                 for h in next(emitters[n] for n in names if n in emitters):
                     events.append(("jumpcall", x, h))
             elif any(n in reserve for n in names):
-                events.append(("operand", x, next(reserve[n] for n in names if n in reserve)["ty"]))
+                h = next(reserve[n] for n in names if n in reserve)
+                if h.get("instr") is not None:
+                    if "variant" in h["instr"]:
+                        events.append(("instr", x, h["instr"]["variant"]))
+                    else:
+                        a = _call_args(x)
+                        events.append(("instr", x, resolved_ctor(f, a[h["instr"]["param"]]) if h["instr"]["param"] < len(a) else None))
+                events.append(("operand", x, h["ty"]))
             elif any(n in patchers for n in names):
                 events.append(("patch", x, next(patchers[n] for n in names if n in patchers)))
             elif "compiler::Compiler::encode_if_then" in names:
@@ -1275,6 +1351,18 @@ def jump_fn(F, f, helpers=None):
     i = 0
     while i < len(events):
         kind, x, v = events[i]
+        if kind == "instr" and isinstance(v, tuple) and v[0] == "param":
+            own = [p_.get("id") for p_ in f.hir["params"]]
+            if v[1] in own:
+                vals = opcode_param_values(F, f.short, own.index(v[1]))
+                if vals and all(isinstance(n, str) for n in vals):
+                    js = [n for n in vals if n in JUMPS]
+                    if not js:
+                        i += 1
+                        continue        # every caller passes an opcode that is not a jump
+                    if len(js) != len(vals):
+                        res.append(undecided("C10.J", "C10/J/%s/param:%s/maybe-jump" % (fname(x), v[2]), f.loc(x["ln"]),
+                                             "callers pass jump and non-jump opcodes"))
         if isinstance(v, tuple) and v[0] == "multi":
             # a local holding one of several known opcodes: a jump only if one of them is
             js = [n for n in v[1] if n in JUMPS]
@@ -1771,12 +1859,18 @@ def rule_a(F):
     res = []
     scan = EmitScan(F, {})
     total_append = 0
-    for f in F.fns:
+    helpers = bytecode_param_helpers(F)
+    clean_helpers = set()
+    # helpers that are handed the vector first: a call of one that only appends is an append
+    order = [v[0] for v in helpers.values()] + [f for f in F.fns if f.short not in helpers]
+    for f in order:
         if not f.hir or f.is_closure or not f.path.startswith("compiler::"):
             continue
         body = f.hir["body"]
         inits = hu.let_inits(f)
         aliases = set()
+        if f.short in helpers:
+            aliases.add(helpers[f.short][2])
         alias_inits = set()
 
         def is_bc(e):
@@ -1795,7 +1889,7 @@ def rule_a(F):
                     aliases.add(lid)
                     changed = True
         for lid in aliases:
-            for e in inits[lid]:
+            for e in inits.get(lid, []):
                 if is_bc(e):
                     alias_inits.add(id(e))
         parent = {}
@@ -1854,6 +1948,9 @@ def rule_a(F):
                     findings.append(("undecided", "bytecode.%s" % m, c, "method %s on the bytecode vector is not classified" % m))
             elif k == "call" and "bytecode::write_to_vec" in hir_callee(c) and len(c["args"]) > 1 and c["args"][1] is top:
                 counts["append"] += 1
+            elif k in ("call", "mcall") and any(n in clean_helpers for n in hir_callee(c)) and any(
+                    helpers[n][1] < len(_call_args(c)) and _call_args(c)[helpers[n][1]] is top for n in hir_callee(c) if n in clean_helpers):
+                counts["append"] += 1       # handed to a helper that was itself decided to only append to it
             elif k == "call" and any(n.endswith("mem::take") or n.endswith("mem::replace") or n.endswith("mem::swap") for n in hir_callee(c)):
                 findings.append(("violation", "bytecode.take", c, "removes"))
             elif k == "index" and c["e"] is top:
@@ -1873,6 +1970,8 @@ def rule_a(F):
                 findings.append(("undecided", "bytecode.handed-to-%s" % str(what).rsplit("::", 1)[-1], c if c is not None else x,
                                  "the bytecode vector is handed to / used by `%s`, which this rule does not know" % what))
         total_append += counts["append"]
+        if not findings and f.short in helpers:
+            clean_helpers.add(f.short)
         if not findings:
             res.append(ok("C10.A", "C10/A/%s/bytecode-append-only" % f.name, f.loc(),
                           "%d append(s), %d length read(s), %d in-place patch(es); no removal, no read of the content" %
